@@ -82,6 +82,11 @@ def listen_rx(radio, agg, p0f, lite=False):
                             for r in (0x0A, 0x02, 0x00):
                                 ok, det = radio.shadow_matches(out.state, r)
                                 agg.add("R08.6", f, "shadow of %s follows the register" % regname(r), ok, "%s: %s" % (label, det))
+                            sh = radio.shadow_value(out.state, 0x0A)
+                            uv = out.state.heap[radio.ref.ident].fields.get(p0f)
+                            alias = isinstance(sh, Ref) and isinstance(uv, Ref) and sh.ident == uv.ident
+                            agg.add("R08.6", f, "the shadow of RX_ADDR_P0 stays a buffer of its own (never the remembered address object itself)", isinstance(sh, Ref) and not alias,
+                                    "%s: the shadow becomes %r, the remembered address is %r - the next open_tx_pipe() would overwrite the remembered address in place" % (label, sh, uv))
                         cfg = bits8(out.state.extra["regs"].get(0))
                         exp = contract.put(radio.old(0), 0x03, 0x03)
                         agg.add("R08.3", f, "CONFIG: PWR_UP=1, PRIM_RX=1 on RX entry", cfg is not None and all(term_eq(x, y) for x, y in zip(cfg, exp)), "%s: CONFIG %s" % (label, fmt_bits(cfg) if cfg else None))
@@ -132,14 +137,16 @@ def open_tx(radio, agg, p0f, lite=False):
     f = radio.prog.method(radio.cls, "open_tx_pipe")
     n = 0
     for aa in (0x3F, 0x3E):
+      for txprev in (b"\xe7" * 5, None):       # None: TX_ADDR already holds the address being opened (re-opening the same TX address)
         for user in (None, A, B):
             for reg0 in (A, B):
                 for addr in (A, B, A3, bytearray(B)):
                     n += 1
-                    label = "open_tx_pipe(%r) with EN_AA=0x%02X, user pipe-0 address %r, RX_ADDR_P0=%r" % (addr, aa, user, reg0)
+                    tx0 = txprev if txprev is not None else eff_addr(b"\xe7" * 5, addr)
+                    label = "open_tx_pipe(%r) with EN_AA=0x%02X, user pipe-0 address %r, RX_ADDR_P0=%r, TX_ADDR=%r" % (addr, aa, user, reg0, tx0)
                     st = radio.fresh({contract.EN_AA: aa})
                     pin_addr(radio, st, 0x0A, reg0)
-                    pin_addr(radio, st, 0x10, b"\xe7" * 5)
+                    pin_addr(radio, st, 0x10, tx0)
                     st.heap[radio.ref.ident].fields[p0f] = lift(st, user)
                     outs = radio.run(f, [addr], st)
                     for out in outs:
@@ -147,7 +154,7 @@ def open_tx(radio, agg, p0f, lite=False):
                             agg.add("R08.4", f, "open_tx_pipe does not raise", False, "%s raises %s" % (label, out.value.exc))
                             continue
                         tx = reg_bytes(radio, out.state, 0x10)
-                        agg.add("R08.4", f, "TX_ADDR holds the given address", tx == eff_addr(b"\xe7" * 5, addr), "%s: TX_ADDR ends as %r" % (label, tx))
+                        agg.add("R08.4", f, "TX_ADDR holds the given address", tx == eff_addr(tx0, addr), "%s: TX_ADDR ends as %r" % (label, tx))
                         rx0 = reg_bytes(radio, out.state, 0x0A)
                         if lite or aa & 1:
                             agg.add("R08.4", f, "pipe 0 is appropriated: RX_ADDR_P0 holds the TX address when pipe 0 auto-acknowledges", rx0 == eff_addr(reg0, addr),
@@ -246,8 +253,45 @@ def ce_writers(radio, agg):
     return n
 
 
+def sequences(radio, agg, p0f, lite=False):
+    """two TX excursions in a row (a bounded piece of the history quantifier that exposes stored references):
+    open_rx_pipe(0, A) ; [listen=False ; open_tx_pipe(X) ; listen=True] x 2  ->  pipe 0 listens on A, the remembered address is A"""
+    P, c = radio.prog, radio.cls
+    f_listen, f_tx, f_open = P.method(c, "listen", "set"), P.method(c, "open_tx_pipe"), P.method(c, "open_rx_pipe")
+    n = 0
+    for user in (A, bytearray(A)):
+        for aa in (0x3F, 0x3E):
+            n += 1
+            label = "open_rx_pipe(0,%r); (listen=False; open_tx_pipe(X); listen=True) twice, EN_AA=0x%02X" % (user, aa)
+            st = radio.fresh({contract.EN_AA: aa, contract.EN_RXADDR: 0x3E})
+            pin_addr(radio, st, 0x0A, b"\xe7" * 5)
+            steps = [(f_open, [0, user]), (f_listen, [False]), (f_tx, [B]), (f_listen, [True]), (f_listen, [False]), (f_tx, [b"3Node"]), (f_listen, [True])]
+            states = [st]
+            uref = None
+            for k, (fn, args) in enumerate(steps):
+                nxt = []
+                for s in states:
+                    s.trace = []
+                    vals = list(args)
+                    if k == 0:
+                        vals[1] = lift(s, user)
+                    for out in radio.run(fn, vals, s):
+                        if out.kind == "return":
+                            nxt.append(out.state)
+                states = nxt[:8]
+            for s in states:
+                got = reg_bytes(radio, s, 0x0A)
+                agg.add("R08.2", f_listen, "after repeated TX excursions pipe 0 still listens on the user's address", got == bytes(user), "%s: RX_ADDR_P0 ends as %r" % (label, got))
+                uv = s.heap[radio.ref.ident].fields.get(p0f)
+                ub = radio.it0.concrete_bytes(uv, s)
+                agg.add("R08.1", f_listen, "after repeated TX excursions the remembered address is still the user's", ub == bytes(user), "%s: remembered address is %r" % (label, ub))
+            agg.add("R08.2", f_listen, "the sequence has complete paths", bool(states), label)
+    return n
+
+
 def run_for(ck, radio, agg, lite=False):
     p0f = radio.user_pipe0_field()
+    sequences(radio, agg, p0f, lite)
     n1 = listen_rx(radio, agg, p0f, lite)
     n2 = listen_tx(radio, agg, p0f, lite)
     n3 = open_tx(radio, agg, p0f, lite)
